@@ -92,12 +92,13 @@ def names_for(pats):
       pool += [a + b, a + '.mid.' + b, b + '.x.' + a, a, 'pre.' + a + 'zz' + b + '.post']
     elif k == 'segment':
       pool += [a + '.one.' + b, a + '.one.two.' + b, a + '..' + b, a + '.' + b, 'x' + a + '.one.' + b, a + '.one.' + b + 'x']
-  pool += ['carbon.agents.host.cpu', 'servers.web.cpu', 'a', 'zzz', 'servers.db.load', 'x..y', '.lead', 'trail.']
+  pool += ['carbon.agents.host.cpu', 'servers.web.cpu', 'a', 'zzz', 'servers.db.load', 'x..y', '.lead', 'trail.',
+           'servers.db.db.queries', 'web.web', 'cpu11.load', 'x.prod.prod', 'b.count', 'a.b', 'db.web']
   base = st.sampled_from(pool)
   return st.one_of(base, base, literals())
 
 
 # unrestricted regexes (compared through `re`: only list/ordering semantics are under test)
-FREE_POOL = [r'^carbon\.', r'cpu$', r'\d+', r'(web|db)\.', r'[aeiou]{2}', r'^[^.]+$', r'\.\.', r'^\.', r'\.$',
+FREE_POOL = [r'(?:^|\.)([^.]+)\.\1(?:\.|$)', r'(\d)\1', r'^(a|x)?(?(1)\.|b)', r'(?P<w>web|db)\.(?P=w)', r'^carbon\.', r'cpu$', r'\d+', r'(web|db)\.', r'[aeiou]{2}', r'^[^.]+$', r'\.\.', r'^\.', r'\.$',
              r'(?i)CPU', r'a.c', r'^servers\.[^.]*\.load$', r'x?y+', r'\bprod\b', r'^$', r'.']
 INVALID_POOL = ['(', '[a', '*a', 'a**', '(?P<x', '\\', '(?z)', 'a{2,1}', '[z-a]', ')']
